@@ -2,6 +2,8 @@ import Ovsdb.Codec
 import Ovsdb.Model.WireEnc
 import Ovsdb.Model.Mapper
 import Ovsdb.CodecUpdates
+import Ovsdb.CodecCache
+import Ovsdb.Model.Client
 /-
   Lean.Json <-> Wire.J, and the canonical rendering of decoded values for the
   correspondence check of the wire decoders (C19, C12).
@@ -194,5 +196,48 @@ def mapperFn (j : Json) : P Json := do
     return Json.mkObj [("row", exceptToJson ovsRowToJson (.ok r)),
       ("json", jToJson (encodeRow validUUIDText (toWRow r))),
       ("back", exceptToJson modelToJson back), ("created", exceptToJson modelToJson created)]
+
+end Ovsdb
+
+/-! ### C01 / C14 / C16: the client protocol model -/
+namespace Ovsdb
+open Lean Ovsdb.Client
+
+def storeOfJson (j : Json) : P Store := do
+  jList (fun r => do
+    let t ← jStr (← jField r "table")
+    let u ← jStr (← jField r "uuid")
+    let row ← rowOfJson (← jField r "row")
+    pure ((t, u), row)) j
+
+def storeToJson (s : Store) : Json :=
+  listToJson (fun (p : Key × Row) => Json.mkObj [("table", .str p.1.1), ("uuid", .str p.1.2), ("row", rowToJson p.2)])
+    ((AMap.keys s).eraseDups.filterMap (fun k => (AMap.get? s k).map (fun r => (k, r))))
+
+def eventToJson : Event → Json
+  | .add k n => Json.mkObj [("ev", .str "add"), ("table", .str k.1), ("uuid", .str k.2), ("new", rowToJson n)]
+  | .update k o n => Json.mkObj [("ev", .str "update"), ("table", .str k.1), ("uuid", .str k.2), ("old", rowToJson o), ("new", rowToJson n)]
+  | .delete k o => Json.mkObj [("ev", .str "delete"), ("table", .str k.1), ("uuid", .str k.2), ("old", rowToJson o)]
+
+def actionOfJson (j : Json) : P Action := do
+  match ← jStr (← jField j "a") with
+  | "start" => return .start
+  | "notif" =>
+    let tables ← jList jStr (← jField j "tables")
+    return .notif (deltaOf tables (← storeOfJson (← jField j "from")) (← storeOfJson (← jField j "to")))
+  | "reply" =>
+    let tables ← jList jStr (← jField j "tables")
+    return .reply (← jFieldD j "purge" jBool false) (initialOf tables (← storeOfJson (← jField j "db")))
+  | s => throw s!"bad action {s}"
+
+/-- {strict, pinned, deferring, actions} -> cache rows, failed flag and event log after the run -/
+def clientProtocolFn (j : Json) : P Json := do
+  let strict ← jFieldD j "strict" jBool true
+  let pinned ← jFieldD j "pinned" jBool false
+  let deferring ← jFieldD j "deferring" jBool true
+  let acts ← jList actionOfJson (← jField j "actions")
+  let s := run strict pinned { deferring := deferring } acts
+  return Json.mkObj [("rows", storeToJson s.cache.rows), ("failed", .bool s.failed), ("deferring", .bool s.deferring),
+    ("events", listToJson eventToJson s.cache.log)]
 
 end Ovsdb
